@@ -613,6 +613,8 @@ pub struct EventView {
     pub why_not: &'static str,
     pub end: usize,
     pub has_unknown: bool,
+    /// one of the seven members occurs more than once: what "the" value is, is then implementation-defined
+    pub dup_known: bool,
 }
 
 pub const EVENT_MEMBERS: [&str; 7] = ["id", "pubkey", "created_at", "kind", "tags", "content", "sig"];
@@ -632,6 +634,7 @@ pub fn event_view(text: &[u8]) -> Option<EventView> {
         why_not: "",
         end: top.end,
         has_unknown: top.members.iter().any(|(k, _)| !EVENT_MEMBERS.contains(&k.as_str())),
+        dup_known: EVENT_MEMBERS.iter().any(|m| top.count(m) > 1),
     };
     let mut no = |v: &mut EventView, why: &'static str, typed: bool| {
         if v.must_accept {
